@@ -2990,10 +2990,11 @@ func (dsc *dataStoreCommand) flush() {
 }
 
 func (dsc *dataStoreCommand) save(l lane.Lane, path string) (err error) {
-	if dsc.ds.data.dirty {
-		dsc.lock()
-		defer dsc.unlock()
+	// the dirty flag is written by commands under the database lock
+	dsc.lock()
+	defer dsc.unlock()
 
+	if dsc.ds.data.dirty {
 		if err = dsc.ds.save(path); err != nil {
 			l.Errorf("Unable to save to %s. Error: %s", path, err)
 			return
